@@ -406,6 +406,9 @@ def build_pool(cs, ctx):
             e = e.astype(np.float32)
         view, guards = pool.carve(e, lay, f"e{j}")
         pool.add("ens", view, guards, f"ens[{lay},{e.dtype}]", {lay})
+    edf = pd.DataFrame(np.exp(rs.normal(0, 1, (N, M))),
+                       columns=[f"m{i}" for i in range(M)])
+    pool.add("ensdf", edf, None, f"ensemble DataFrame[{N}x{M}]")
     # ---- small vectors (AR params, acf, percentiles)
     for j in range(3):
         k = cs.between(f"s{j}.k", 1, 6)
@@ -876,20 +879,59 @@ def catalogue():
         c = hgrid.Catchment("tmp", a.fd)
         n = int(a.fd.nrows * a.fd.ncols)
         inl = [i % n for i in o["inlets"]] if o["inlets"] else None
-        c.delineate_area(o["outlet"] % n, inl, nval=n + 5)
+        nval = o["nval"] if o["nval"] else n + 5
+        c.delineate_area(o["outlet"] % n, inl, nval=nval)
         out = [c.idxcells_area, c.idxcells_area_filled]
         if o["again"]:
-            c.delineate_area(o["outlet2"] % n, nval=n + 5)
+            c.delineate_area(o["outlet2"] % n, nval=nval)
             out += [c.idxcells_area, c.idxinlets]
         if o["boundary"]:
             c.delineate_boundary()
             out += [c.idxcells_boundary]
         return out
+    def delineate_around_failure(a, o):
+        """delineate, then a delineation that fails for lack of buffer space
+        (documented ValueError), then the first one again: same arguments,
+        same result."""
+        n = int(a.fd.nrows * a.fd.ncols)
+        nval = o["nval"]
+        c = hgrid.Catchment("tmp", a.fd)
+        try:
+            c.delineate_area(o["outlet"] % n, nval=nval)
+        except ValueError:
+            return "first call does not fit"
+        first = np.array(c.idxcells_area, copy=True)
+        failed = False
+        for cand in o["others"]:
+            c2 = hgrid.Catchment("tmp2", a.fd)
+            try:
+                c2.delineate_area(cand % n, nval=nval)
+            except ValueError:
+                failed = True
+                break
+        c3 = hgrid.Catchment("tmp3", a.fd)
+        c3.delineate_area(o["outlet"] % n, nval=nval)
+        third = np.array(c3.idxcells_area, copy=True)
+        if not np.array_equal(first, third):
+            raise Violation("consecutive_calls_differ",
+                            f"delineate_area(outlet={o['outlet'] % n}, nval="
+                            f"{nval}) gave {first.tolist()} and, after "
+                            f"{'a failing' if failed else 'another'} "
+                            f"delineation in between, {third.tolist()}",
+                            "Catchment.delineate_area")
+        return [first, failed]
+    add("Catchment.delineate_area around a failing call", [FD],
+        delineate_around_failure,
+        lambda cs: {"outlet": cs.draw("outlet", 81),
+                    "nval": cs.choice("nval", [4, 6, 10, 20]),
+                    "others": [cs.draw(f"o{i}", 81) for i in range(6)]},
+        weight=4)
     add("Catchment(new).delineate_area", [FD], fresh_delineate,
         lambda cs: {"outlet": cs.draw("outlet", 81),
                     "inlets": [cs.draw("i0", 81)] if cs.flip("inl", 40)
                     else None,
                     "again": cs.flip("again", 40),
+                    "nval": cs.choice("nval", [None, None, 4, 8, 20]),
                     "outlet2": cs.draw("outlet2", 81),
                     "boundary": cs.flip("boundary", 40)})
     add("grid.accumulate", [FD], lambda a, o: hgrid.accumulate(
@@ -1008,6 +1050,9 @@ class Args:
     pass
 
 
+PANDAS_ALIAS = {"vec": "series", "mat": "df", "ens": "ensdf"}
+
+
 # ---------------------------------------------------------------------------
 # plan and execution
 # ---------------------------------------------------------------------------
@@ -1034,6 +1079,11 @@ def make_plan(cs, pool, entries, nsteps):
                 plain = {t for t in (tags or ()) if not t.startswith("@")}
                 cands = [o for o in pool.by_kind.get(kind, [])
                          if plain <= o.tags]
+                # pandas inputs stand in for arrays in a share of the calls
+                alias = PANDAS_ALIAS.get(kind)
+                if alias and not plain and pool.by_kind.get(alias) and \
+                        cs.flip("pandas." + pname, 20):
+                    cands = list(pool.by_kind[alias])
                 for t in (tags or ()):
                     if t.startswith("@pair:"):
                         # must share a pairing tag with an already bound object
@@ -1087,6 +1137,8 @@ def execute_call(c, pool, entries, ctx, log, snaps):
         warnings.simplefilter("ignore")
         try:
             res = e.fn(a, c["opts"])
+        except Violation:
+            raise
         except Exception as ex:
             exc = type(ex).__name__
         finally:
@@ -1354,3 +1406,10 @@ def replay(path):
         say(f"  sig=result_depends_on_session_history {out['mismatches'][0]}")
         return 1
     return 0
+
+
+def warmup():
+    import matplotlib
+    matplotlib.use("Agg")
+    import matplotlib.pyplot  # noqa: F401
+    catalogue()
